@@ -110,7 +110,7 @@ package mocker
 //@   requires tail_is_a_plain_slice: c.isVariadic ==> rv_iface(args[len(args) - 1]) != nil && rv_kind(value_of(rv_iface(args[len(args) - 1]))) == reflect.Slice && 0 <= rv_len(value_of(rv_iface(args[len(args) - 1]))) && rv_len(value_of(rv_iface(args[len(args) - 1]))) < 0x10000
 //@   assigns nothing
 //@   invariant loop 1 counting: 0 <= i && i <= rv_len(rv) && rv_kind(rv) == reflect.Slice && rv_len(rv) < 0x10000 && len(expandArgs) == last + i && last < 0x10000 && 0 <= last
-//@   invariant loop 1 expanded_so_far: (forall k int :: 0 <= k && k < last ==> expandArgs[k] == args[k]) && (forall j int :: 0 <= j && j < i ==> expandArgs[last + j] == rv_index(rv, j))
+//@   invariant[C04,slow] loop 1 expanded_so_far: (forall k int :: 0 <= k && k < last ==> expandArgs[k] == args[k]) && (forall j int :: 0 <= j && j < i ==> expandArgs[last + j] == rv_index(rv, j))
 //@     | && last == len(args) - 1 && rv == value_of(rv_iface(args[last])) && arr(args) != textref && alive(arr(args))
 //@   invariant loop 1 writes_fresh_only: elems_unchanged_since_entry(reflect.Value) && fresh(expandArgs)
 //@   invariant loop 1 receiver_kept: c != nil && arr(c.exprs) != textref && len(c.exprs) < 0x10000 && (forall k int :: 0 <= k && k < len(c.exprs) ==> c.exprs[k] != nil)
